@@ -435,8 +435,16 @@ func (b *assignmentBuilder) isStructFieldAccessible(structNode bmodel.Node, leaf
 	if named, ok := structType.(*types.Named); ok {
 		return !b.isExternalPkg(named.Obj().Pkg()) || ast.IsExported(leafName)
 	}
+	// An anonymous struct type: its fields belong to the package that wrote it down,
+	// e.g. the package of the imported struct it is a member of.
+	if st, ok := structType.Underlying().(*types.Struct); ok {
+		for i := 0; i < st.NumFields(); i++ {
+			if field := st.Field(i); field.Name() == leafName {
+				return !b.isExternalPkg(field.Pkg()) || ast.IsExported(leafName)
+			}
+		}
+	}
 	return true
-
 }
 
 // isExternalPkg returns true if the given package is not the current package.
